@@ -114,11 +114,11 @@ Qed.
 (** * The invariant *)
 Definition okseg (l : list tok) : Prop := balanced l ∧ TEnd ∉ l.
 
-Lemma go_0 tbl toks i d p r : go tbl toks 0 i d p r = Err EFuel.
+Lemma go_0 pa pe tbl toks i d p r : go_p pa pe tbl toks 0 i d p r = Err EFuel.
 Proof. reflexivity. Qed.
-Lemma go_noindex tbl toks f i d p r : tok_at toks i = None → go tbl toks (S f) i d p r = Err EIndex.
+Lemma go_noindex pa pe tbl toks f i d p r : tok_at toks i = None → go_p pa pe tbl toks (S f) i d p r = Err EIndex.
 Proof. intros H. simpl. by rewrite H. Qed.
-Local Arguments go : simpl never.
+Local Arguments go_p : simpl never.
 
 Lemma assoc_absent {A} key (tbl : list (string * A)) :
   forallb (λ kp : string * A, negb (String.eqb kp.1 key)) tbl = true → assoc key tbl = None.
@@ -144,6 +144,14 @@ Proof.
     apply andb_true_iff in H as [H1 H2]. apply andb_true_iff in H1 as [H1 _].
     apply andb_true_iff in H1 as [H1 _]. apply Z.leb_le in H1.
     destruct (String.eqb o k); [by intros [= <-]|by apply IH].
+Qed.
+
+Lemma op_ends_le pe p pp o : op_ends pe p pp o = true → (p ≤ pp)%Z.
+Proof.
+  unfold op_ends. destruct pe.
+  - intros H. apply andb_true_iff in H as [H _]. by apply Z.leb_le.
+  - intros H. apply orb_true_iff in H as [H | H]; [apply Z.ltb_lt in H; lia|].
+    apply andb_true_iff in H as [H _]. apply Z.eqb_eq in H. lia.
 Qed.
 
 Definition is_some {A} (x : option A) : bool := match x with Some _ => true | None => false end.
@@ -176,11 +184,11 @@ Proof.
   rewrite elem_of_app, elem_of_cons. auto.
 Qed.
 
-Lemma tail_cases tbl toks f d prev result i' t j c :
+Lemma tail_cases pa pe tbl toks f d prev result i' t j c :
   tok_at toks i' = Some c →
-  tail_of tbl toks f d prev result i' = Ok (t, j) →
+  tail_of pa pe tbl toks f d prev result i' = Ok (t, j) →
   (c = TEnd ∧ j = i' ∧ prev ≠ "(" ∧ result = Some t) ∨
-  (c ≠ TEnd ∧ go tbl toks f (i' + 1) d prev result = Ok (t, j)).
+  (c ≠ TEnd ∧ go_p pa pe tbl toks f (i' + 1) d prev result = Ok (t, j)).
 Proof.
   intros Hc. unfold tail_of. rewrite Hc.
   destruct c; try (destruct (Nat.leb _ _); [discriminate|]; intros H; right; by split).
@@ -189,15 +197,15 @@ Proof.
 Qed.
 
 Section Inv.
-  Context (tbl : list (string * Z)) (toks : list tok) (Htbl : tbl_okb tbl = true).
+  Context (pa pe : bool) (tbl : list (string * Z)) (toks : list tok) (Htbl : tbl_okb tbl = true).
   Context (f : nat).
   Context (IHf : ∀ i d prev result t j,
-              go tbl toks f i d prev result = Ok (t, j) → inv tbl toks i prev (is_some result) j).
+              go_p pa pe tbl toks f i d prev result = Ok (t, j) → inv tbl toks i prev (is_some result) j).
 
   (** the tokens [i, m) are consumed and end with an operand; the loop goes on at m *)
   Lemma continue_inv i m d prev r' t j b :
     i < m → okseg (seg toks i m) → opnd tbl (seg toks i m) b = true →
-    go tbl toks f m d prev (Some r') = Ok (t, j) → inv tbl toks i prev b j.
+    go_p pa pe tbl toks f m d prev (Some r') = Ok (t, j) → inv tbl toks i prev b j.
   Proof.
     intros Him Hok Hop Hgo. destruct (IHf _ _ _ _ _ _ Hgo) as (k & Hk & _ & Hok' & Hop' & Hst).
     exists k. split; [lia|]. split; [lia|].
@@ -209,10 +217,10 @@ Section Inv.
   Lemma skip_inv i d prev result t j c :
     tok_at toks i = Some c → is_open c = false → is_close c = false →
     (∀ b, opnd_step tbl b c = b) →
-    tail_of tbl toks f d prev result i = Ok (t, j) → inv tbl toks i prev (is_some result) j.
+    tail_of pa pe tbl toks f d prev result i = Ok (t, j) → inv tbl toks i prev (is_some result) j.
   Proof.
     intros Hc Ho Hcl Hstep Htail.
-    destruct (tail_cases _ _ _ _ _ _ _ _ _ _ Hc Htail) as [(-> & -> & Hp & ->) | (Hne & Hgo)].
+    destruct (tail_cases _ _ _ _ _ _ _ _ _ _ _ _ Hc Htail) as [(-> & -> & Hp & ->) | (Hne & Hgo)].
     - exists i. split; [lia|]. split; [done|]. rewrite seg_nil. split; [apply okseg_nil|].
       split; [done|]. by apply SEnd.
     - destruct (IHf _ _ _ _ _ _ Hgo) as (k & Hk & Hk' & Hok' & Hop' & Hst).
@@ -227,7 +235,7 @@ Section Inv.
   (** after a call made for an operand returned *)
   Lemma after_sub i i0 d prev prev' R i' t j b :
     i ≤ i0 → okseg (seg toks i i0) → inv tbl toks i0 prev' false i' → prev' ≠ "(" →
-    tail_of tbl toks f d prev (Some R) i' = Ok (t, j) → inv tbl toks i prev b j.
+    tail_of pa pe tbl toks f d prev (Some R) i' = Ok (t, j) → inv tbl toks i prev b j.
   Proof.
     intros Hi Hok (k' & Hk1 & Hk2 & Hok' & Hop' & Hst) Hp' Htail.
     specialize (Hk2 eq_refl).
@@ -236,7 +244,7 @@ Section Inv.
     assert (Hokk : okseg (seg toks i k')).
     { rewrite (seg_app toks i i0 k') by lia. by apply okseg_app. }
     destruct Hst as [Hend -> _ | _ _ Hc | t0 Ht0 Hne -> _ _]; [| done |].
-    - destruct (tail_cases _ _ _ _ _ _ _ _ _ _ Hend Htail) as [(_ & -> & Hp & _) | (Hne & _)]; [|done].
+    - destruct (tail_cases _ _ _ _ _ _ _ _ _ _ _ _ Hend Htail) as [(_ & -> & Hp & _) | (Hne & _)]; [|done].
       exists k'. split; [lia|]. split; [lia|]. split; [done|]. split; [done|]. by apply SEnd.
     - assert (Hc : ∃ c, tok_at toks (pred k') = Some c).
       { destruct (tok_at toks (pred k')) as [c|] eqn:E; [eauto|].
@@ -244,39 +252,45 @@ Section Inv.
       destruct Hc as (c & Hc).
       assert (Hcne : c ≠ TEnd).
       { intros ->. destruct Hok' as [_ Hnot]. apply Hnot. apply (seg_elem _ _ _ (pred k')); [done|lia|lia]. }
-      destruct (tail_cases _ _ _ _ _ _ _ _ _ _ Hc Htail) as [(-> & _) | (_ & Hgo)]; [done|].
+      destruct (tail_cases _ _ _ _ _ _ _ _ _ _ _ _ Hc Htail) as [(-> & _) | (_ & Hgo)]; [done|].
       replace (pred k' + 1) with k' in Hgo by lia.
       eapply continue_inv with (m := k'); [lia|done|done|exact Hgo].
   Qed.
 
   Lemma go_inv_step i d prev result t j :
-    go tbl toks (S f) i d prev result = Ok (t, j) → inv tbl toks i prev (is_some result) j.
+    go_p pa pe tbl toks (S f) i d prev result = Ok (t, j) → inv tbl toks i prev (is_some result) j.
   Proof.
     destruct (tbl_ok_facts _ Htbl) as (Hnone & Hopen & Hpos & Hjuxt).
     assert (Hd1 : prio_d tbl "<none>" = (-1)%Z) by (unfold prio_d; by rewrite Hnone).
     assert (Hd2 : prio_d tbl "(" = (-1)%Z) by (unfold prio_d; by rewrite Hopen).
-    destruct (tok_at toks i) as [cur|] eqn:Hcur; [|by rewrite (go_noindex _ _ _ _ _ _ _ Hcur)].
+    destruct (tok_at toks i) as [cur|] eqn:Hcur; [|by rewrite (go_noindex _ _ _ _ _ _ _ _ _ Hcur)].
+    assert (Hjx : ∀ r, cur ≠ TEnd →
+              (if Z.leb (prio_d tbl "") (prio_d tbl prev) then Ok (r, pred i)
+               else match go_p pa pe tbl toks f i (d + 1) "" None with
+                    | Err e => Err e
+                    | Ok (rt, i') => tail_of pa pe tbl toks f d prev (Some (Eval.Bin "" r rt)) i'
+                    end) = Ok (t, j) → inv tbl toks i prev true j).
+    { intros r Hne. destruct (Z.leb (prio_d tbl "") (prio_d tbl prev)) eqn:Hleb.
+      + intros [= <- <-]. exists i. split; [lia|]. split; [done|]. rewrite seg_nil.
+        split; [apply okseg_nil|]. split; [done|].
+        apply Z.leb_le in Hleb.
+        apply (SBack _ _ _ _ cur); [done|exact Hne|done| |]; intros ->; lia.
+      + destruct (go_p pa pe tbl toks f i (d + 1) "" None) as [[rt i']|e] eqn:Hsub; [|discriminate].
+        intros Htail. apply IHf in Hsub. simpl in Hsub.
+        eapply after_sub with (i0 := i) (prev' := ""); [lia| rewrite seg_nil; apply okseg_nil |exact Hsub|done|exact Htail]. }
     assert (Hatom : is_atom_tok cur = true →
-              go tbl toks (S f) i d prev result = Ok (t, j) → inv tbl toks i prev (is_some result) j).
+              go_p pa pe tbl toks (S f) i d prev result = Ok (t, j) → inv tbl toks i prev (is_some result) j).
     { intros Ha. destruct result as [r|].
-      - rewrite (go_atom_some _ _ _ _ _ _ _ _ Hcur Ha).
-        destruct (Z.leb (prio_d tbl "") (prio_d tbl prev)) eqn:Hleb.
-        + intros [= <- <-]. exists i. split; [lia|]. split; [done|]. rewrite seg_nil.
-          split; [apply okseg_nil|]. split; [done|].
-          apply Z.leb_le in Hleb.
-          apply (SBack _ _ _ _ cur); [done| by destruct cur |done| |]; intros ->; lia.
-        + destruct (go tbl toks f i (d + 1) "" None) as [[rt i']|e] eqn:Hsub; [|discriminate].
-          intros Htail. apply IHf in Hsub. simpl in Hsub.
-          eapply after_sub with (i0 := i) (prev' := ""); [lia| rewrite seg_nil; apply okseg_nil |exact Hsub|done|exact Htail].
-      - rewrite (go_atom_none _ _ _ _ _ _ _ Hcur Ha). intros Htail.
-        destruct (tail_cases _ _ _ _ _ _ _ _ _ _ Hcur Htail) as [(-> & _) | (_ & Hgo)]; [done|].
+      - rewrite (go_atom_some _ _ _ _ _ _ _ _ _ _ Hcur Ha). apply Hjx. by destruct cur.
+      - rewrite (go_atom_none _ _ _ _ _ _ _ _ _ Hcur Ha). intros Htail.
+        destruct (tail_cases _ _ _ _ _ _ _ _ _ _ _ _ Hcur Htail) as [(-> & _) | (_ & Hgo)]; [done|].
         eapply continue_inv with (m := i + 1); [lia| | |exact Hgo].
         + rewrite (seg_single _ _ _ Hcur). apply okseg_single; by destruct cur.
         + rewrite (seg_single _ _ _ Hcur). by destruct cur. }
     destruct cur as [s|s|s| |]; [by apply Hatom|by apply Hatom| | |].
     - (* an OP token *)
       destruct (String.eqb_spec s ")") as [-> | Hnc].
-      { rewrite (go_close _ _ _ _ _ _ _ Hcur).
+      { rewrite (go_close _ _ _ _ _ _ _ _ _ Hcur).
         destruct (String.eqb_spec prev "<none>"); [discriminate|].
         destruct result as [r|]; [|discriminate].
         destruct (String.eqb_spec prev "("); intros [= <- <-];
@@ -284,16 +298,25 @@ Section Inv.
         - by apply SClose.
         - by apply (SBack _ _ _ _ (TOp ")")). }
       destruct (String.eqb_spec s "(") as [-> | Hno].
-      { rewrite (go_open _ _ _ _ _ _ _ Hcur).
-        destruct (go tbl toks f (i + 1) 0 "(" None) as [[rt i']|e] eqn:Hsub; [|discriminate].
+      { assert (Hgroup : ∀ k : tree → tree,
+                  match go_p pa pe tbl toks f (i + 1) 0 "(" None with
+                  | Err e => Err e
+                  | Ok (rt, i') =>
+                      match tok_at toks i' with
+                      | None => Err EIndex
+                      | Some t0 =>
+                          if negb (bool_decide (t0 = TOp ")")) then Err EWeird
+                          else tail_of pa pe tbl toks f d prev (Some (k rt)) i'
+                      end
+                  end = Ok (t, j) → inv tbl toks i prev (is_some result) j).
+        { intros k.
+        destruct (go_p pa pe tbl toks f (i + 1) 0 "(" None) as [[rt i']|e] eqn:Hsub; [|discriminate].
         apply IHf in Hsub. simpl in Hsub.
         destruct Hsub as (k' & Hk1 & Hk2 & Hok' & Hop' & Hst). specialize (Hk2 eq_refl).
         destruct Hst as [_ _ Hc | Hclose -> _ | t0 _ _ _ Hc _]; [done| |done].
         rewrite Hclose. rewrite bool_decide_eq_true_2 by done. simpl.
-        assert (Hgo : ∀ R, tail_of tbl toks f d prev (Some R) k' = Ok (t, j) →
-                      inv tbl toks i prev (is_some result) j).
-        { intros R Htail.
-          destruct (tail_cases _ _ _ _ _ _ _ _ _ _ Hclose Htail) as [(E & _) | (_ & Hgo)]; [done|].
+        intros Htail.
+          destruct (tail_cases _ _ _ _ _ _ _ _ _ _ _ _ Hclose Htail) as [(E & _) | (_ & Hgo)]; [done|].
           eapply continue_inv with (m := k' + 1); [lia| | |exact Hgo].
           - rewrite (seg_cons _ _ _ _ Hcur) by lia. replace (S i) with (i + 1) by lia.
             rewrite (seg_app toks (i + 1) k' (k' + 1)) by lia. rewrite (seg_single _ _ _ Hclose).
@@ -304,41 +327,45 @@ Section Inv.
           - rewrite (seg_cons _ _ _ _ Hcur) by lia. replace (S i) with (i + 1) by lia.
             rewrite (seg_app toks (i + 1) k' (k' + 1)) by lia. rewrite (seg_single _ _ _ Hclose).
             unfold opnd. simpl. rewrite fold_left_app. done. }
-        destruct result; apply Hgo. }
+        destruct result as [r|].
+        - destruct pa eqn:Hpa.
+          + rewrite (go_open_some_any _ _ _ _ _ _ _ _ _ eq_refl Hcur). apply (Hgroup (λ rt, Eval.Bin "" r rt)).
+          + rewrite (go_open_some_prio _ _ _ _ _ _ _ _ _ eq_refl Hcur). apply Hjx. done.
+        - rewrite (go_open_none _ _ _ _ _ _ _ _ Hcur). apply (Hgroup (λ rt, rt)). }
       assert (Hnp : not_paren s = true).
       { unfold not_paren. apply andb_true_iff. split; apply negb_true_iff; by apply String.eqb_neq. }
       assert (Hio : is_open (TOp s) = false) by (apply bool_decide_eq_false; congruence).
       assert (Hic : is_close (TOp s) = false) by (apply bool_decide_eq_false; congruence).
       apply String.eqb_neq in Hnc, Hno.
-      rewrite (go_op _ _ _ _ _ _ _ _ Hcur Hnp).
+      rewrite (go_op _ _ _ _ _ _ _ _ _ _ Hcur Hnp).
       destruct (prio tbl s) as [p|] eqn:Hp.
       + assert (Hseg1 : okseg (seg toks i (i + 1))).
         { rewrite (seg_single _ _ _ Hcur). by apply okseg_single. }
         destruct result as [r|].
-        * destruct (Z.leb p (prio_d tbl prev) && negb (String.eqb s "**" || String.eqb s "^")) eqn:Hstop.
+        * destruct (op_ends pe p (prio_d tbl prev) s) eqn:Hstop.
           -- intros [= <- <-]. exists i. split; [lia|]. split; [done|]. rewrite seg_nil.
              split; [apply okseg_nil|]. split; [done|].
-             apply andb_true_iff in Hstop as [Hleb _]. apply Z.leb_le in Hleb.
+             apply op_ends_le in Hstop as Hleb.
              pose proof (Hpos _ _ Hp).
              apply (SBack _ _ _ _ (TOp s)); [done|done|done| |]; intros ->; lia.
-          -- destruct (go tbl toks f (i + 1) (d + 1) s None) as [[rt i']|e] eqn:Hsub; [|discriminate].
+          -- destruct (go_p pa pe tbl toks f (i + 1) (d + 1) s None) as [[rt i']|e] eqn:Hsub; [|discriminate].
              intros Htail. apply IHf in Hsub. simpl in Hsub.
              eapply after_sub with (i0 := i + 1) (prev' := s); [lia|done|exact Hsub| |exact Htail].
              intros ->. by rewrite String.eqb_refl in Hno.
-        * destruct (go tbl toks f (i + 1) (d + 1) "unary" None) as [[rt i']|e] eqn:Hsub; [|discriminate].
+        * destruct (go_p pa pe tbl toks f (i + 1) (d + 1) "unary" None) as [[rt i']|e] eqn:Hsub; [|discriminate].
           intros Htail. apply IHf in Hsub. simpl in Hsub.
           eapply after_sub with (i0 := i + 1) (prev' := "unary"); [lia|done|exact Hsub|done|exact Htail].
       + apply (skip_inv i d prev result t j (TOp s) Hcur Hio Hic).
         intros b. simpl. by rewrite Hnc, Hno, Hp.
-    - rewrite (go_skip _ _ _ _ _ _ _ TOther Hcur) by auto.
+    - rewrite (go_skip _ _ _ _ _ _ _ _ _ TOther Hcur) by auto.
       by apply (skip_inv i d prev result t j TOther Hcur).
-    - rewrite (go_skip _ _ _ _ _ _ _ TEnd Hcur) by auto.
+    - rewrite (go_skip _ _ _ _ _ _ _ _ _ TEnd Hcur) by auto.
       by apply (skip_inv i d prev result t j TEnd Hcur).
   Qed.
 End Inv.
 
-Theorem go_inv tbl toks : tbl_okb tbl = true → ∀ f i d prev result t j,
-  go tbl toks f i d prev result = Ok (t, j) → inv tbl toks i prev (is_some result) j.
+Theorem go_inv pa pe tbl toks : tbl_okb tbl = true → ∀ f i d prev result t j,
+  go_p pa pe tbl toks f i d prev result = Ok (t, j) → inv tbl toks i prev (is_some result) j.
 Proof.
   intros Htbl. induction f as [|f IH]; intros i d prev result t j.
   - by rewrite go_0.
@@ -346,14 +373,14 @@ Proof.
 Qed.
 
 (** * Consequences for [build] *)
-Theorem build_ok_inv tbl toks t :
-  tbl_okb tbl = true → build tbl toks = Ok t →
+Theorem build_ok_inv pa pe tbl toks t :
+  tbl_okb tbl = true → build_p pa pe tbl toks = Ok t →
   ∃ k, tok_at toks k = Some TEnd ∧ TEnd ∉ take k toks ∧ balanced (take k toks)
        ∧ opnd tbl (take k toks) false = true.
 Proof.
-  intros Htbl. unfold build.
-  destruct (go tbl toks (build_fuel toks) 0 0 "<none>" None) as [[t' j]|e] eqn:Hgo; [|discriminate].
-  intros _. apply (go_inv _ _ Htbl) in Hgo. simpl in Hgo.
+  intros Htbl. unfold build_p.
+  destruct (go_p pa pe tbl toks (build_fuel toks) 0 0 "<none>" None) as [[t' j]|e] eqn:Hgo; [|discriminate].
+  intros _. apply (go_inv _ _ _ _ Htbl) in Hgo. simpl in Hgo.
   destruct Hgo as (k & _ & _ & [Hbal Hnot] & Hop & Hst).
   unfold seg in *. rewrite Nat.sub_0_r in *. simpl in *.
   exists k. destruct Hst as [Hend _ _ | _ _ Hc | t0 _ _ _ _ Hc]; done.
@@ -374,20 +401,20 @@ Proof.
 Qed.
 
 (** no value on unbalanced parentheses: for EVERY token list *)
-Theorem no_value_on_unbalanced_gen tbl toks t :
-  tbl_okb tbl = true → build tbl toks = Ok t →
+Theorem no_value_on_unbalanced_gen pa pe tbl toks t :
+  tbl_okb tbl = true → build_p pa pe tbl toks = Ok t →
   ∃ body rest, toks = body ++ TEnd :: rest ∧ TEnd ∉ body ∧ balanced body.
 Proof.
-  intros Htbl Hb. destruct (build_ok_inv _ _ _ Htbl Hb) as (k & Hk & Hnot & Hbal & _).
+  intros Htbl Hb. destruct (build_ok_inv _ _ _ _ _ Htbl Hb) as (k & Hk & Hnot & Hbal & _).
   exists (take k toks), (drop (S k) toks). split; [|done].
   unfold tok_at in Hk. rewrite <- (take_drop k toks) at 1. f_equal.
   by apply drop_nth.
 Qed.
-Theorem unbalanced_no_value tbl body :
-  tbl_okb tbl = true → TEnd ∉ body → ¬ balanced body → ∀ t, build tbl (body ++ [TEnd]) ≠ Ok t.
+Theorem unbalanced_no_value pa pe tbl body :
+  tbl_okb tbl = true → TEnd ∉ body → ¬ balanced body → ∀ t, build_p pa pe tbl (body ++ [TEnd]) ≠ Ok t.
 Proof.
   intros Htbl Hb Hnb t Hbuild.
-  destruct (build_ok_inv _ _ _ Htbl Hbuild) as (k & Hk & Hnot & Hbal & _).
+  destruct (build_ok_inv _ _ _ _ _ Htbl Hbuild) as (k & Hk & Hnot & Hbal & _).
   rewrite (first_end_unique body [] k Hb Hk Hnot) in Hbal. done.
 Qed.
 
@@ -398,12 +425,12 @@ Definition is_operator (tbl : list (string * Z)) (t : tok) : bool :=
   | TOp s => negb (String.eqb s ")") && (String.eqb s "(" || bool_decide (prio tbl s ≠ None))
   | _ => false
   end.
-Theorem dangling_no_value tbl body o trail :
+Theorem dangling_no_value pa pe tbl body o trail :
   tbl_okb tbl = true → TEnd ∉ body → is_operator tbl o = true → Forall (λ x, x = TOther) trail →
-  ∀ t, build tbl (body ++ [o] ++ trail ++ [TEnd]) ≠ Ok t.
+  ∀ t, build_p pa pe tbl (body ++ [o] ++ trail ++ [TEnd]) ≠ Ok t.
 Proof.
   intros Htbl Hb Ho Htr t Hbuild.
-  destruct (build_ok_inv _ _ _ Htbl Hbuild) as (k & Hk & Hnot & _ & Hop).
+  destruct (build_ok_inv _ _ _ _ _ Htbl Hbuild) as (k & Hk & Hnot & _ & Hop).
   assert (Hb' : TEnd ∉ body ++ [o] ++ trail).
   { rewrite !elem_of_app. intros [H | [H | H]]; [done| |].
     - apply elem_of_list_singleton in H. subst o. done.
